@@ -6,7 +6,10 @@ import streams
 
 THEOREMS = ["apply_conforming", "stated_place_wins", "section_writes_new_version", "parse_normal_header",
             "normal_roundtrip", "normal_roundtrip_sides", "normal_body_roundtrip", "normal_roundtrip_conforming",
-            "script_conf", "script_wf", "normal_diff_applies", "normal_diff_reverses"]
+            "script_conf", "script_wf", "normal_diff_applies", "normal_diff_reverses", "unified_header_scan",
+            "unified_header_scan_index", "unified_header_scan_blank", "patch_applies_end_to_end",
+            "patch_applies_end_to_end_index", "patch_p1_applies", "run_patch_end_to_end", "run_patch_file_end_to_end",
+            "sections_apply", "git_patch_applies"]
 
 K20 = ("K20-top-insertion", "context-free insertion at the top of a non-empty file (diff -U0 '@@ -0,0 +1 @@', normal '0a1', -C0 '*** 0 ****') is rejected")
 K21 = ("K21-zero-context-operation", "zero-context diff whose first hunk removes line 1 ('@@ -1 +0,0 @@', normal '1d0') is taken for a file deletion: 'Not deleting file' + exit 1 although the content is right")
